@@ -226,9 +226,28 @@ def run(ctx):
                                ("ValueList", "removeItem", "self.value.remove(item)"),
                                ("ValueMap", "getItem", "return self.value[key]")):
         m = model.method(P, cname, mname)
-        ok = any(norm(s) == want for s in m.node.body)
+        item = m.params[1] if len(m.params) > 1 else None
+        # the element reaches the host container's own lookup (which uses __hash__ / __eq__): an `in` test, a
+        # subscript, or add / remove / discard / pop / get on self.value with the element as argument - and nothing
+        # in the method scans the container or compares renderings instead
+        direct = False
+        for n in ast.walk(m.node):
+            if isinstance(n, ast.Compare) and len(n.ops) == 1 and isinstance(n.ops[0], (ast.In, ast.NotIn)) \
+                    and norm(n.left) == item and norm(n.comparators[0]) == "self.value":
+                direct = True
+            if isinstance(n, ast.Subscript) and norm(n.value) == "self.value" and norm(n.slice) == item:
+                direct = True
+            if isinstance(n, ast.Call) and isinstance(n.func, ast.Attribute) and norm(n.func.value) == "self.value" \
+                    and n.func.attr in ("add", "remove", "discard", "pop", "get", "index", "count") and n.args \
+                    and norm(n.args[0]) == item:
+                direct = True
+        scans = any(isinstance(n, (ast.For, ast.While, ast.ListComp, ast.SetComp, ast.DictComp, ast.GeneratorExp))
+                    for n in ast.walk(m.node))
+        renders = any(isinstance(n, ast.Call) and norm(n.func) in ("str", "repr", "format") for n in ast.walk(m.node))
+        ok = direct and not scans and not renders
         ctx.check("C06.payload", m, None, ok, f"{cname}.{mname} does not operate on the hash container directly "
-                  f"(`{want}`)", expr=f"{cname}.{mname}", site=f"{cname}.{mname}: {want}")
+                  f"(as in `{want}`): a scan or a comparison of renderings would not agree with == and the hash",
+                  expr=f"{cname}.{mname}", site=f"{cname}.{mname}: element looked up by the host container itself")
 
     # ---------------------------------------------------------------- natives
     for cname, op in (("FuncEquals", ast.Eq), ("FuncNotEquals", ast.NotEq)):
